@@ -5,7 +5,13 @@
    expressions: literals, variables, unary minus / not, parentheses, + - * / %, comparisons on
    integers, && and || with short-circuit evaluation, calls (recursion allowed);
    statements: x := e, x = e, x op= e, x++ / x--, if / if-else, three-clause for, break, continue,
-   return e, nested blocks, call statements.
+   return e1, ..., en, nested blocks, call statements, a, _, c := f(...) and a, _, c = f(...) for functions
+   with several results.
+
+   One choice follows pkg/compiler rather than the Go specification: the operands of a return with several
+   values are evaluated right to left, and the targets of a multiple assignment are stored last to first. Go and
+   this semantics agree whenever every operand is defined and the targets are distinct (expressions have no side
+   effects here); the difference (which of two failing operands fails, or a diverging one) is finding F156.
 
    Integers are mathematical (Z).  Go's int is 64 bits wide and the VM's is 256: a result outside
    [-2^63, 2^63) is *undefined* here (result [Undef]), so every statement proved about a defined run
@@ -36,7 +42,7 @@ Inductive expr :=
 | EBin (op : binop) (a b : expr)
 | EAnd (a b : expr)
 | EOr (a b : expr)
-| ECall (f : nat) (args : list expr).    (* f: index in the program's function list *)
+| ECall (f : nat) (args : list expr).    (* f: index in the program's function list; exactly one result *)
 
 Inductive stmt :=
 | SSkip
@@ -51,11 +57,13 @@ Inductive stmt :=
 | SFor (init : stmt) (c : expr) (post : stmt) (body : stmt)   (* for init; c; post { body } *)
 | SBreak
 | SContinue
-| SReturn (e : expr)
+| SReturn (es : list expr)               (* return e1, ..., en *)
 | SBlock (s : stmt)                      (* { s } *)
-| SExpr (e : expr).                      (* call statement, value dropped *)
+| SCall (f : nat) (args : list expr)     (* call statement, results dropped *)
+| SCallAssign (decl : bool) (xs : list (option ident)) (f : nat) (args : list expr).
+                                         (* x1, ..., xn := f(args)  /  x1, ..., xn = f(args); None is the blank _ *)
 
-Record func := { f_params : list ident; f_body : stmt }.
+Record func := { f_params : list ident; f_nres : nat; f_body : stmt }.
 Definition program := list func.
 
 (* ---------- results ---------- *)
@@ -109,10 +117,26 @@ Fixpoint update (x : ident) (v : val) (r : env) : option env :=
 (* leaving a scope: keep the [k] outermost entries *)
 Definition truncate {A} (k : nat) (l : list A) : list A := skipn (length l - k) l.
 
-Inductive outcome := ONormal | OBreak | OContinue | OReturn (v : val).
+Inductive outcome := ONormal | OBreak | OContinue | OReturn (vs : list val).
 
 Definition assign (r : env) (x : ident) (v : val) : res (outcome * env) :=
   match update x v r with Some r' => Ok (ONormal, r') | None => Undef end.
+
+(* results of a call bound to the targets of a multiple assignment; both lists are given last target first, the
+   order in which the compiled code stores them *)
+Fixpoint decl_results (xs : list (option ident)) (rs : list val) (r : env) : env :=
+  match xs, rs with
+  | Some x :: xs', v :: rs' => decl_results xs' rs' ((x, v) :: r)
+  | None :: xs', _ :: rs' => decl_results xs' rs' r
+  | _, _ => r
+  end.
+
+Fixpoint assign_results (xs : list (option ident)) (rs : list val) (r : env) : option env :=
+  match xs, rs with
+  | Some x :: xs', v :: rs' => match update x v r with Some r' => assign_results xs' rs' r' | None => None end
+  | None :: xs', _ :: rs' => assign_results xs' rs' r
+  | _, _ => Some r
+  end.
 
 (* ---------- the evaluator ---------- *)
 Fixpoint eval (n : nat) (p : program) (r : env) (e : expr) {struct n} : res val :=
@@ -141,7 +165,9 @@ Fixpoint eval (n : nat) (p : program) (r : env) (e : expr) {struct n} : res val 
             | VBool false => bind (eval n p r b) (fun vb => match vb with VBool _ => Ok vb | _ => Undef end)
             | _ => Undef
             end)
-      | ECall f args => bind (eval_list n p r args) (fun vs => call n p f vs)
+      | ECall f args =>
+          bind (eval_list n p r args) (fun vs =>
+            bind (call n p f vs) (fun rs => match rs with [v] => Ok v | _ => Undef end))
       end
   end
 
@@ -155,7 +181,7 @@ with eval_list (n : nat) (p : program) (r : env) (es : list expr) {struct n} : r
       end
   end
 
-with call (n : nat) (p : program) (f : nat) (vs : list val) {struct n} : res val :=
+with call (n : nat) (p : program) (f : nat) (vs : list val) {struct n} : res (list val) :=
   match n with
   | O => Timeout
   | S n =>
@@ -164,7 +190,10 @@ with call (n : nat) (p : program) (f : nat) (vs : list val) {struct n} : res val
       | Some fn =>
           if Nat.eqb (length (f_params fn)) (length vs) && Nat.leb (length vs) 255 then   (* INITSLOT counts are one byte *)
             bind (exec n p (combine (f_params fn) vs) (f_body fn))
-                 (fun or => match fst or with OReturn v => Ok v | _ => Undef end)
+                 (fun or => match fst or with
+                            | OReturn rs => if Nat.eqb (length rs) (f_nres fn) then Ok rs else Undef
+                            | _ => Undef
+                            end)
           else Undef
       end
   end
@@ -222,9 +251,19 @@ with exec (n : nat) (p : program) (r : env) (s : stmt) {struct n} : res (outcome
             end)
       | SBreak => Ok (OBreak, r)
       | SContinue => Ok (OContinue, r)
-      | SReturn e => bind (eval n p r e) (fun v => Ok (OReturn v, r))
+      | SReturn es => bind (eval_list n p r (rev es)) (fun vs => Ok (OReturn (rev vs), r))
       | SBlock a => scoped a
-      | SExpr e => bind (eval n p r e) (fun _ => Ok (ONormal, r))
+      | SCall f args => bind (eval_list n p r args) (fun vs => bind (call n p f vs) (fun _ => Ok (ONormal, r)))
+      | SCallAssign decl xs f args =>
+          bind (eval_list n p r args) (fun vs =>
+            bind (call n p f vs) (fun rs =>
+              if Nat.eqb (length rs) (length xs) && Nat.leb (length xs) 255 then
+                if decl then Ok (ONormal, decl_results (rev xs) (rev rs) r)
+                else match assign_results (rev xs) (rev rs) r with
+                     | Some r' => Ok (ONormal, r')
+                     | None => Undef
+                     end
+              else Undef))
       end
   end
 
@@ -254,4 +293,4 @@ with loop (n : nat) (p : program) (r : env) (c : expr) (post body : stmt) {struc
   end.
 
 (* running function [f] of [p] on arguments [vs] *)
-Definition run_src (n : nat) (p : program) (f : nat) (vs : list val) : res val := call n p f vs.
+Definition run_src (n : nat) (p : program) (f : nat) (vs : list val) : res (list val) := call n p f vs.
